@@ -457,6 +457,22 @@ func (f *Fixture) WorkerReload(w int) {
 	f.mustHandler()
 	f.Coll.VerifWorkerRunPending(w)
 	// Resize starts a new sent-cache monitor but keeps the dropped checker: drainer stays stopped.
+	f.refreshCtl(w)
+}
+
+// refreshCtl re-attaches the sent-cache control if the worker now owns a different cache object.
+func (f *Fixture) refreshCtl(w int) {
+	sc := f.Coll.VerifSampleCache(w)
+	if f.Sent[w].Same(sc) {
+		return
+	}
+	ctl, ok := cache.VerifControl(sc)
+	if !ok {
+		panic("fixture: sent cache is not the cuckoo implementation")
+	}
+	ctl.SetClock(f.Clock)
+	ctl.StopDrainer()
+	f.Sent[w] = ctl
 }
 
 // Reload = ReloadSignal + WorkerReload on every worker, in index order.
